@@ -144,6 +144,33 @@ CHECKS = {
         "perf_counter in sample_checking). Address-space layout itself cannot be enumerated; its only effect on the code is enumerated.",
         "3/C15",
     ),
+    "C02": (
+        "model_checking",
+        "explorer+RngSeam+ClockSeam+solid",
+        "exhaustive enumeration of RNG outcomes x requirement-check orderings (scripted clock, deviation-bounded) x checker histories on the "
+        "real sampler; every accepted scene re-verified by an independent geometric oracle",
+        "28 programs (2-3 objects over discrete alphabets of shape / size / position / yaw / allowCollisions; workspace, regionContainedIn and "
+        "polygon-with-hole containers; visible / not visible from / requireVisible with an occluding wall; hard and soft user requirements): "
+        "every RNG outcome of the scene under test x every scripted duration vector with <=1 (thorough 2) slow evaluations x 2-3 scenes in a "
+        "row on one Scenario; each accepted scene has no overlapping non-colliding pair, is inside its container, respects (in)visibility in "
+        "the clear-cut cases and satisfies hard + selected soft user requirements.",
+        "Trusted: models/solid.py, models/view_c17.py; cases within 1e-4 of touching are skipped and counted. One-sided by design (the property "
+        "is about accepted scenes).",
+        "3/C02",
+    ),
+    "C17": (
+        "exploration",
+        "pose/target lattice x occluder subsets + view oracle",
+        "bounded-exhaustive enumeration of viewer kinds x poses x view angles x distances x target lattice x ALL subsets of an occluder set, "
+        "judged by an independent view-volume / sight-line oracle, through every plumbing route",
+        "204 (thorough 3126) viewer configurations (Point / OrientedPoint / Object with camera offset; rotated, away from the origin; 12 view-angle "
+        "sets; 3 distances) x a target lattice around every angular and radial bound x all 8 subsets of 3 occluders for points (exact, both "
+        "directions) and 1608 (22392) object placements x 5 shapes x ray settings (one-sided + monotonicity in the occluder set), asked through "
+        "canSee, the `can see` operator, visibleRegion.containsPoint, the requirement classes and compiled programs.",
+        "Trusted: models/view_c17.py (own ZXY rotations, segment-triangle tests). Targets within 2 deg / 5% of a bound, grazing sight lines and "
+        "sparse-ray cases are counted, not judged.",
+        "3/C17",
+    ),
 }
 
 NOT_YET = {}
